@@ -60,6 +60,8 @@ def run(repo, chk):
     chk.rule('C13.B2', 'string table: label, word(len(string)), .ascii string; indexing skips exactly one word')
     chk.rule('C13.B3', 'constant arrays: directive kind follows the element class; recorded length is the element count')
     it = Interp(repo)
+    if chk.tier == 'thorough':
+        it.step_limit = 400_000_000     # all 65 536 byte pairs x 2 quotes
     asm = it.load(ASM)
     esc = asm.get('_escape_bytes')
     if esc is None:
